@@ -37,7 +37,7 @@ CLAIMED = {
  "C17": dict(text=GEN + "Partial: six-day star incl. leap months, moon phase, minor Ren, month nine star, 28 mansions (+1 per day, luminary = weekday), day officer, Yellow/Black-path spirits for days and hours — engine B over the real index arithmetic for all inputs. flying nine star of the year (three 360-year windows), of the hour, and of the day (turning at the Jiazi days nearest the solstices; for the dates before a civil year's first turning day the check reports a known finding: the code counts back from that day and the star jumps on January 1 after a 240-day run). Not covered: year nine star outside the windows.",
              note="Assumes: object-model axioms A-index, A-pillar; weekday and day pillar as functions of the day number from C07.",
              technique=ENGB),
- "C16": dict(text=GEN + "Partial: the seconds -> (years, months, days, hours, minutes) conversions of the Default, China95 and LunarSect2 strategies for every difference up to 32 days, and the calendar addition of AbstractChildLimitProvider::next (clock carries, day overflow through arbitrary month lengths with the loop bound proved, start month, month steps); the forward/backward rule and which Jie governs; decade and yearly fortunes (indices, ages, years, month/hour pillar stepped by +-1 in the direction of luck, next(n)) — engine B on the compiler's MIR with overflow asserts proved. Not covered: LunarSect1, months with missing days, which term an instant belongs to.",
+ "C16": dict(text=GEN + "Partial: the seconds -> (years, months, days, hours, minutes) conversions of the Default, China95 and LunarSect2 strategies for every difference up to 32 days and of LunarSect1 (days and double hours; hours 0..22), and the calendar addition of AbstractChildLimitProvider::next (clock carries, day overflow through arbitrary month lengths with the loop bound proved, start month, month steps); the forward/backward rule and which Jie governs; decade and yearly fortunes (indices, ages, years, month/hour pillar stepped by +-1 in the direction of luck, next(n)) — engine B on the compiler's MIR with overflow asserts proved. Not covered: LunarSect1 at hour 23, months with missing days, which term an instant belongs to.",
              note="Assumes: the difference to the governing Jie is arbitrary within +-32 days (ENV-J); month lengths arbitrary 21..31 and months as ordinals 12y+m-1 (C01/C11); SolarTime getters within their invariant ranges (C12 12.0).",
              technique=ENGB),
  "C02": dict(text=GEN + "Partial: lunar before/after = chronological order (year, index in year, day) including a month vs its leap twin, for any leap month; LunarDay::new accepts exactly day 1..day count; LunarMonth::new invariant — engine B, counterexamples realised on a real year with that leap month. the civil -> lunar walk and its inverse under an abstract tiling month table (round trips and consecutive-day mapping hold wherever the real table tiles). Not covered: that the real new-moon table tiles (it has known gaps in AD 9-25 and AD 240).",
@@ -46,11 +46,14 @@ CLAIMED = {
  "C03": dict(text=GEN + "Partial (structural clauses): LunarMonth::new acceptance and index in year for any leap table and any astronomy (engine B); month stepping moves by exactly n on the month line of any leap table, leap month right after its twin (Kani, = 11.e); year listing (Kani, thorough). Not covered: 29/30-day lengths, abutment, year lengths — data of ~123,700 evaluated lunations.",
              note="Assumes: ENV-A (astronomical kernel arbitrary, float comparisons arbitrary), ENV-L (leap table symbolic on a 5-7 year window), LunarMonth::from_ym without the memo.",
              technique=ENGB + " + " + BMC),
- "C06": dict(text=GEN + "Partial: term stepping = constructing n places later incl. year carry (Kani); day -> term lookup under an abstract term table: with the alignment contract the reported term is the latest one on or before the date and the day index is the days since its day, 0..16 (engine B, walk loop unrolled, bound proved); without the contract the solver finds the known forward-walk defect, which is realised natively and printed as KNOWN-FINDING. Not covered: spacing/monotonicity of the real term instants, the instant -> term mapping.",
+ "C06": dict(text=GEN + "Partial: term stepping = constructing n places later incl. year carry (Kani); day -> term lookup under an abstract term table: with the alignment contract the reported term is the latest one on or before the date and the day index is the days since its day, 0..16 (engine B, walk loop unrolled, bound proved), and the same for instants (SolarTime::get_term); without the contract the solver finds the known forward-walk defect, which is realised natively and printed as KNOWN-FINDING. Not covered: spacing/monotonicity of the real term instants, in which years the alignment contract holds.",
              note="Assumes: term days form an increasing table with consecutive days 14..16 apart; SolarTerm::from_index/next denote term numbers (11.c); SolarDay order/subtract per C01.",
              technique=ENGB + " + " + BMC),
  "C15": dict(text=GEN + "Partial: Nines, pentads, Dog days and Plum rains re-derived in the specification from abstract term days and the (day number + 49) mod 60 pillar, decided for every date and every admissible term table by engine B on the compiler's MIR; counterexamples are confirmed by a native scan of real years. Not covered: commanding stems (string slicing).",
              note="Assumes: spacing contracts of the term table (solstices 355..366 days apart, start of autumn 42..48 days after the summer solstice, Slight Heat 28..32 days after Grain in Ear); day pillar per C07; day arithmetic per C01.",
+             technique=ENGB),
+ "C20": dict(text=GEN + "Partial — ONLY the stepping clause: a civil or lunar festival stepped by n asks for the festival n places further along the festival list, carrying into later or earlier years (index arithmetic of SolarFestival::next / LunarFestival::next for every year, index and |n| <= 10^6, overflow and division asserts proved; list sizes read from the source) — engine B. Not covered: every lookup (from_index / from_ymd, all of LegalHoliday): they run a regex over a packed string, which this technique cannot encode; founding years, shared days, New Year's Eve, term-day festivals, the legal-holiday table.",
+             note="Assumes: index_of is the mathematical remainder (C11 11.a); the festival's own index and year are arbitrary in range.",
              technique=ENGB),
 }
 NA = {
@@ -58,7 +61,6 @@ NA = {
  "C05": "transcendental floating point (about 3000 trigonometric coefficients, Newton inverses): CBMC over-approximates sin/cos as arbitrary values in [-1,1]; no decision procedure here (DESIGN §6)",
  "C10": "call histories, thread interleavings, poisoned Mutex<HashMap<String,_>>: outside Kani (no threads, no unwinding, SipHash via foreign call) (DESIGN §6)",
  "C18": "lookups run the regex crate and split 60 KB of packed strings addressed by symbolic indices; finite spaces would be decided by enumeration, which is outside this technique (DESIGN §6)",
- "C20": "every festival/holiday lookup compiles and runs a regex::Regex over a packed string (DESIGN §6)",
 }
 import sys
 extra = json.load(open('/verif/tools/claimed_extra.json')) if len(sys.argv) > 1 else {}
@@ -77,7 +79,7 @@ m = {"version": 1, "setup_cmd": "./setup.sh",
      "hooks": {"guard": "tyme4rs_verif", "enable": "none needed: harnesses live in /verif/harness (path dependency on /repo); no source hooks are compiled in",
                "baseline_off_cmd": "cd /repo && cargo test --workspace --no-fail-fast --offline", "source_commits": [], "add_only": True},
      "engines": [{"name": "kani-harness", "path": "/verif/harness", "serves_properties": list(CLAIMED), "kind_free_text": "engine A: Kani 0.68 / CBMC 6.11 / CaDiCaL bounded model checking of the compiled crate; wrappers generated per run by verifkit/kani.py"},
-                 {"name": "mir2smt", "path": "/verif/mir2smt", "serves_properties": ["C02", "C03", "C06", "C07", "C08", "C09", "C11", "C12", "C13", "C14", "C15", "C16", "C17", "C19"], "kind_free_text": "engine B: nightly rustc MIR of loop-free integer kernels translated to integer SMT-LIB, decided by z3 and cvc5 (both must agree), translator validated against the native functions on every run"}],
+                 {"name": "mir2smt", "path": "/verif/mir2smt", "serves_properties": ["C02", "C03", "C06", "C07", "C08", "C09", "C11", "C12", "C13", "C14", "C15", "C16", "C17", "C19", "C20"], "kind_free_text": "engine B: nightly rustc MIR of loop-free integer kernels translated to integer SMT-LIB, decided by z3 and cvc5 (both must agree), translator validated against the native functions on every run"}],
      "checks": checks, "not_applicable": na,
      "notes": "Every check rebuilds from /repo's working tree in a scratch directory under /tmp that it removes on exit. Genuine defects repaired by fix: commits are listed in known_findings.json (status fixed)."}
 json.dump(m, open('/verif/MANIFEST.json', 'w'), indent=1)
